@@ -8,6 +8,7 @@
      GD <p>                   let the parked DELETE of p proceed (after the last one: retain + retention)
      GP                       let the cycle run to its end (remaining deletes, retain, retention, persist)
      G                        = GF ; GP
+     RSG <grace_ns>           as RS, the new incarnation is configured with this gc_grace_period
      RS                       compactor restart: a cycle in flight is lost; load the file (the harness
                               always sends GF next: `run` starts its first cycle at once)
      PQ <q> <s> <e>           query q: get_chunks(s,e) on the current catalog, pin the result
@@ -49,14 +50,16 @@ let run_line (line : string) : string =
   match split_on ';' line with
   | [] -> "EMPTY"
   | hd :: ops ->
-    let (c, t0) = match split_on ' ' (String.trim hd) with
+    let (c0, t0) = match split_on ' ' (String.trim hd) with
       | ["cfg"; g; d; t0] -> ({ g_grace = z_of_string g; g_retention_days = z_of_string d; g_skew = default_skew }, z_of_string t0)
       | _ -> failwith "bad cfg" in
+    (* the configuration of the running incarnation: a restart may change gc_grace_period *)
+    let cref = ref c0 in
     let s = ref (init t0) in
     let is_open = ref false in
     let dmark = ref 0 and rmark = ref 0 in
     let known = ref false in
-    let st x = s := step c !s x in
+    let st x = s := step !cref !s x in
     let observe () =
       let nd = List.length !s.dlog - !dmark and nr = List.length !s.rlog - !rmark in
       let dels = List.map (fun e -> e.d_path) (take nd !s.dlog) in
@@ -64,10 +67,10 @@ let run_line (line : string) : string =
       dmark := List.length !s.dlog; rmark := List.length !s.rlog;
       Printf.sprintf "del=%s|ret=%s|cat=%s|obj=%s|disk=%s" (paths_sorted dels) (paths_sorted rets)
         (paths_sorted (List.map fst !s.cat)) (paths_sorted !s.objs) (entries_sorted t0 !s.disk) in
-    let finish () = if !is_open then begin s := drv_finish c !s; is_open := false end in
-    let begin_cycle () = finish (); s := drv_begin c !s; is_open := true in
-    let finish_x () = if !is_open then begin s := drv_finish_x c !s; is_open := false end in
-    let begin_cycle_x () = finish (); s := drv_begin_x c !s; is_open := !s.gc_active in
+    let finish () = if !is_open then begin s := drv_finish !cref !s; is_open := false end in
+    let begin_cycle () = finish (); s := drv_begin !cref !s; is_open := true in
+    let finish_x () = if !is_open then begin s := drv_finish_x !cref !s; is_open := false end in
+    let begin_cycle_x () = finish (); s := drv_begin_x !cref !s; is_open := !s.gc_active in
     let entries (x : string) : (path * z) list =
       List.map (fun e -> match String.split_on_char '@' e with
         | [p; t] -> (n_of_string p, z_of_string t) | _ -> failwith "bad DE") (split_on ',' x) in
@@ -91,16 +94,17 @@ let run_line (line : string) : string =
       | ["GDX"; p] ->
           let p = n_of_string p in
           if !is_open && !s.gc_active && memN p !s.gcsel then begin
-            s := drv_delete_x c !s p; is_open := !s.gc_active; "d" end else "skip"
+            s := drv_delete_x !cref !s p; is_open := !s.gc_active; "d" end else "skip"
       | ["GPX"] -> if !is_open then begin finish_x (); observe () end else "-"
       | ["GX"] -> begin_cycle_x (); finish_x (); observe ()
       | ["GF"] -> begin_cycle (); "-"
       | ["GD"; p] ->
           let p = n_of_string p in
-          if !is_open && !s.gc_active && memN p !s.gcsel then begin s := drv_delete c !s p; "d" end else "skip"
+          if !is_open && !s.gc_active && memN p !s.gcsel then begin s := drv_delete !cref !s p; "d" end else "skip"
       | ["GP"] -> if !is_open then begin finish (); observe () end else "-"
       | ["G"] -> begin_cycle (); finish (); observe ()
       | ["RS"] -> is_open := false; st Restart; st Load; "-"
+      | ["RSG"; g] -> is_open := false; cref := { !cref with g_grace = z_of_string g }; st Restart; st Load; "-"
       | ["PQ"; q; a; b] ->
           let q = n_of_string q in
           let fresh = not (amem (fun a b -> a = b) q !s.queries) in
